@@ -53,4 +53,145 @@ theorem cpython_one_lawful (T a b : Int) (h1 : -day < b - a) (h2 : b - a < day) 
   roundTrip i := cpyAstimezone_rt T a b h1 h2 i
   foldIgnored i f hu := cpyAstimezone_unique T a b i f (hu _) (hu _)
 
+
+/-! ### every zone that is, around each instant, a one-transition zone
+
+`_mktime`, the fold detection and `astimezone` probe the offset function only within three days of the instant they are
+about (their probes are at most 24 h plus two offsets away).  So the contract holds for EVERY offset function that looks,
+within three days of every instant, like a one-transition zone — in particular for every transition table whose transitions
+are at least seven days apart, with offsets and jumps below 24 h (every zone of the IANA database in its recent decades). -/
+
+/-- The probes of `_mktime` stay within three days of the instant. -/
+theorem cpyDecode_local (off off' : Int → Int) (i : Int) (f : Bool)
+    (hb : ∀ j, -day < off' j ∧ off' j < day)
+    (h : ∀ j, i - 3 * day ≤ j → j ≤ i + 3 * day → off j = off' j) :
+    cpyDecode off (i + off i) f = cpyDecode off' (i + off' i) f := by
+  have hd : day = 86400000000 := rfl
+  have h0 := h i (by omega) (by omega)
+  unfold cpyDecode
+  generalize day = D at *
+  grind
+
+theorem cpyFold_local (off off' : Int → Int) (i : Int)
+    (hb : ∀ j, -day < off' j ∧ off' j < day)
+    (h : ∀ j, i - 3 * day ≤ j → j ≤ i + 3 * day → off j = off' j) :
+    cpyFold off i = cpyFold off' i := by
+  have hd : day = 86400000000 := rfl
+  have h0 := h i (by omega) (by omega)
+  unfold cpyFold
+  generalize day = D at *
+  grind
+
+theorem cpyDecode_near (off' : Int → Int) (i : Int) (f : Bool)
+    (hb : ∀ j, -day < off' j ∧ off' j < day) :
+    i - 3 * day ≤ cpyDecode off' (i + off' i) f ∧ cpyDecode off' (i + off' i) f ≤ i + 3 * day := by
+  have hd : day = 86400000000 := rfl
+  unfold cpyDecode
+  generalize day = D at *
+  grind
+
+theorem cpyAstimezone_local (off off' : Int → Int) (i : Int) (f : Bool)
+    (hb : ∀ j, -day < off' j ∧ off' j < day)
+    (h : ∀ j, i - 3 * day ≤ j → j ≤ i + 3 * day → off j = off' j) :
+    cpyAstimezone off (i + off i) f = cpyAstimezone off' (i + off' i) f := by
+  have h0 := h i (by have : (0:Int) < day := by decide
+                     omega) (by have : (0:Int) < day := by decide
+                                omega)
+  unfold cpyAstimezone
+  rw [cpyDecode_local off off' i f hb h, cpyDecode_local off off' i (!f) hb h]
+  have n1 := cpyDecode_near off' i f hb
+  have n2 := cpyDecode_near off' i (!f) hb
+  simp only []
+  split
+  · rw [h _ n2.1 n2.2, h0]
+  · rw [h _ n1.1 n1.2, h0]
+
+
+/-- Around every instant the zone looks like a zone with (at most) one transition. -/
+def LocallyOne (off : Int → Int) : Prop :=
+  ∀ i, ∃ T a b, (-day < a ∧ a < day) ∧ (-day < b ∧ b < day) ∧ (-day < b - a ∧ b - a < day) ∧
+    ∀ j, i - 3 * day ≤ j → j ≤ i + 3 * day → off j = oneOffset T a b j
+
+theorem oneOffset_bounded {T a b : Int} (ha : -day < a ∧ a < day) (hb : -day < b ∧ b < day) :
+    ∀ j, -day < oneOffset T a b j ∧ oneOffset T a b j < day := by
+  intro j; unfold oneOffset; split <;> assumption
+
+/-- **CPython's algorithms are lawful for every locally-one-transition zone.** -/
+theorem cpython_local_lawful (off : Int → Int) (h : LocallyOne off) : (TZ.cpython off).Lawful where
+  roundTrip i := by
+    obtain ⟨T, a, b, ha, hb, hd, hloc⟩ := h i
+    have hbd := oneOffset_bounded (T := T) ha hb
+    show cpyAstimezone off (i + off i) (cpyFold off i) = i
+    rw [cpyFold_local off _ i hbd hloc, cpyAstimezone_local off _ i _ hbd hloc]
+    exact cpyAstimezone_rt T a b hd.1 hd.2 i
+  foldIgnored i f hu := by
+    obtain ⟨T, a, b, ha, hb, hd, hloc⟩ := h i
+    have hbd := oneOffset_bounded (T := T) ha hb
+    have hday : (0 : Int) < day := by decide
+    have h0 : off i = oneOffset T a b i := hloc i (by omega) (by omega)
+    show cpyAstimezone off (i + off i) f = i
+    rw [cpyAstimezone_local off _ i f hbd hloc]
+    apply cpyAstimezone_unique T a b i f
+    · intro hx
+      have hj : off (i + (a - b)) = oneOffset T a b (i + (a - b)) := hloc _ (by omega) (by omega)
+      exact hu (i + (a - b)) (by show _ + off _ = _ + off _; rw [hj, h0]; exact hx)
+    · intro hy
+      have hj : off (i + (b - a)) = oneOffset T a b (i + (b - a)) := hloc _ (by omega) (by omega)
+      exact hu (i + (b - a)) (by show _ + off _ = _ + off _; rw [hj, h0]; exact hy)
+
+/-- A transition table whose transitions are at least seven days apart, with offsets and jumps below 24 h. -/
+def Spaced : Int → List (Int × Int) → Prop
+  | _, [] => True
+  | base, (t, o) :: rest =>
+    (-day < o ∧ o < day) ∧ (-day < o - base ∧ o - base < day) ∧ (∀ p ∈ rest, t + 7 * day ≤ p.1) ∧ Spaced o rest
+
+theorem tableOffset_before (o : Int) (rest : List (Int × Int)) (j : Int) (h : ∀ p ∈ rest, j < p.1) :
+    tableOffset o rest j = o := by
+  cases rest with
+  | nil => rfl
+  | cons p ps =>
+    obtain ⟨t, o'⟩ := p
+    have := h (t, o') (by simp)
+    simp only [tableOffset]
+    rw [if_pos this]
+
+theorem table_locallyOne (base : Int) (trs : List (Int × Int)) (hb : -day < base ∧ base < day)
+    (hs : Spaced base trs) : LocallyOne (tableOffset base trs) := by
+  have hday : (0 : Int) < day := by decide
+  induction trs generalizing base with
+  | nil =>
+    intro i
+    exact ⟨i, base, base, hb, hb, ⟨by omega, by omega⟩, fun j _ _ => by simp [tableOffset, oneOffset]⟩
+  | cons p rest ih =>
+    obtain ⟨t, o⟩ := p
+    obtain ⟨ho, hjump, hgap, hrest⟩ := hs
+    intro i
+    by_cases h1 : i + 3 * day < t
+    · -- the whole window lies before the transition
+      refine ⟨i, base, base, hb, hb, ⟨by omega, by omega⟩, fun j _ hj => ?_⟩
+      simp only [tableOffset, oneOffset, ite_self]
+      rw [if_pos (by omega)]
+    · by_cases h2 : t ≤ i - 3 * day
+      · -- the whole window lies after it: the rest of the table
+        obtain ⟨T, a, b, ha, hb', hd, hloc⟩ := ih o ho hrest i
+        refine ⟨T, a, b, ha, hb', hd, fun j hj1 hj2 => ?_⟩
+        simp only [tableOffset]
+        rw [if_neg (by omega)]
+        exact hloc j hj1 hj2
+      · -- the transition is inside the window; the next one is at least seven days later
+        refine ⟨t, base, o, hb, ho, hjump, fun j _ hj2 => ?_⟩
+        simp only [tableOffset, oneOffset]
+        by_cases hjt : j < t
+        · rw [if_pos hjt, if_pos hjt]
+        · rw [if_neg hjt, if_neg hjt]
+          apply tableOffset_before
+          intro q hq
+          have := hgap q hq
+          omega
+
+/-- **CPython's algorithms are lawful for every such table.** -/
+theorem cpython_table_lawful (base : Int) (trs : List (Int × Int)) (hb : -day < base ∧ base < day)
+    (hs : Spaced base trs) : (TZ.table base trs).Lawful :=
+  cpython_local_lawful _ (table_locallyOne base trs hb hs)
+
 end Uberjob.Time
